@@ -235,7 +235,7 @@ def witness(failure, ctx):
     tried = 0
     for name, hx in bins.items():
         for k in range(0, 8):
-            for ans in ("cont", "stop", "error"):
+            for ans in ("cont", "stop", "error", "error_state_stop", "error_state_complete"):
                 p, err = ctx["vreplay"](["consumer-script", hx, str(k), ans])
                 if p is None or p.returncode != 0:
                     return {"found": False, "error": err or p.stderr[-300:]}
@@ -260,7 +260,8 @@ def witness(failure, ctx):
                 # truncate at the first non-continue answer
                 if ans != "cont" and k < len(exp):
                     exp = exp[:k + 1]
-                    expres = "Err(ConsumerStopRequested)" if ans == "stop" else "Err(ConsumerError(MyErr(%d)))" % k
+                    expres = {"stop": "Err(ConsumerStopRequested)", "error": "Err(ConsumerError(MyErr(%d)))" % k,
+                              "error_state_stop": "Err(ConsumerError(ConsumerStopRequested))", "error_state_complete": "Err(ConsumerError(Complete))"}[ans]
                 else:
                     expres = ("Err(" + parse_err) if parse_err else "Ok(())"
                 got = [c[2].split(":")[0] for c in cbs]
